@@ -155,6 +155,8 @@ def tokens (h : Heap) : Nat → Val → List String
 
 inductive Op where
   | bind (lit : Val)                    -- `S(acc=lit)`, `Coalesce(…, default=lit)`, `T.get(k, lit)`, …: acc := arg_val(lit)
+  | bindRaw (lit : Val)                 -- `S(v=Vars(acc=lit))`: `Vars.glomit` returns `ScopeVars(base, defaults)` — the
+                                        -- default is NOT passed through `arg_val`: the call receives the literal itself
   | push (path : List Nat) (x : String) -- `S.acc….append(x)`: mutates the object the call received
   | read                                -- the call reads its value
   | yield                               -- a user callable (where the harness switches threads)
@@ -176,6 +178,7 @@ def Thread.step (fast : Bool) (fuel : Nat) (t : Thread) (h : Heap) : Thread × H
   | .bind lit :: r =>
     let v := argValX fast t.ev fuel h lit
     ({ t with ops := r, reg := v.2 }, v.1)
+  | .bindRaw lit :: r => ({ t with ops := r, reg := lit }, h)
   | .push p x :: r =>
     (match locate h t.reg p with
      | some a => ({ t with ops := r }, pushAt h a x)
